@@ -488,6 +488,25 @@ func refsConsistent(ctx context.Context, st *Stack) string {
 	return ""
 }
 
+// duplicateNames: two pipelines of the in-memory view carry the same name.
+func duplicateNames(ctx context.Context, st *Stack) string {
+	pls := st.pipe.List(ctx)
+	ids := make([]string, 0, len(pls))
+	for id := range pls {
+		ids = append(ids, id)
+	}
+	sort.Strings(ids)
+	seen := map[string]string{}
+	for _, id := range ids {
+		n := pls[id].Config.Name
+		if other, ok := seen[n]; ok {
+			return fmt.Sprintf("pipelines %s and %s are both named %q", other, id, n)
+		}
+		seen[n] = id
+	}
+	return ""
+}
+
 func contains(xs []string, x string) bool {
 	for _, y := range xs {
 		if y == x {
@@ -507,6 +526,7 @@ func (s *Sim) apiExperiment() {
 	ops := w.cfg.ApiOps
 	// clean pass: count store ops per call
 	counts := make([]int, len(ops))
+	cleanDup := false // the calls produce two pipelines with one name even without a store failure
 	run := func(failCall, failOp int) {
 		env := w.newApiEnv()
 		if w.cfg.ApiConfigProvisioned {
@@ -573,6 +593,13 @@ func (s *Sim) apiExperiment() {
 					}
 					w.violate(owner, "memory-differs-from-store:"+tag, fmt.Sprintf("after call #%d %s (error: %v) the in-memory view differs from what a restarted server loads: %s", i, op.Op, err != nil, d))
 				}
+			}
+			if d := duplicateNames(ctx, env.st); d != "" && failCall < 0 {
+				cleanDup = true
+			} else if d != "" && !cleanDup {
+				// (the name of a pipeline is reserved for it: a failed call that gives the
+				// reservation away shows as soon as a later call is accepted with that name)
+				w.violate("C14", "pipeline-name-taken-twice", fmt.Sprintf("after call #%d %s (error: %v): %s - in the run without the injected store failure the same calls never produce two pipelines with one name", i, op.Op, err != nil, d))
 			}
 			if d := refsConsistent(ctx, env.st); d != "" {
 				w.violate("C14", "dangling-reference:"+tag, fmt.Sprintf("after call #%d %s (error: %v): %s", i, op.Op, err != nil, d))
